@@ -37,12 +37,13 @@ class SpinStart {
   explicit SpinStart(int parties) : parties_(parties) {}
   void arriveAndWait() {
     arrived_.fetch_add(1, std::memory_order_relaxed);
+    vrt::progress(); // a thread that has been created and reached the start line is progress
     // early arrivers must not starve the threads that have not even started yet (the machine is
     // shared): spin briefly, then yield on every probe
     unsigned spins = 0;
     while (arrived_.load(std::memory_order_relaxed) < parties_) {
       ++spins;
-      if (spins > 4000) usleep(50);
+      if (spins > 600) usleep(50);
       else if (spins > 64) std::this_thread::yield();
     }
   }
@@ -60,6 +61,7 @@ class SleepStart {
   explicit SleepStart(int parties) : parties_(parties) {}
   void arriveAndWait() {
     arrived_.fetch_add(1, std::memory_order_relaxed);
+    vrt::progress();
     while (arrived_.load(std::memory_order_relaxed) < parties_) usleep(100);
     stage2_.fetch_add(1, std::memory_order_relaxed);
     for (unsigned spins = 0; spins < 20000 && stage2_.load(std::memory_order_relaxed) < parties_; ++spins) {
